@@ -33,7 +33,7 @@ Definition structural (G : group) (p : str) (Sp : sch) (a : ann str) : Prop :=
 (* 1. "tl:/Red/" gets one NODE_NAME_EMPTY, "/Red/" two: the pattern ^/ is applied to the text with its namespace *)
 Lemma prefixed_equiv_refuted_leading_slash :
   exists G p Sp a, structural G p Sp a /\ schema83_group G = schema83_single Sp /\
-    x_verdict (cfg_group G) (prefix_ann p a) <> x_verdict (cfg_single ([], Sp)) a.
+    x_verdict false (cfg_group G) (prefix_ann p a) <> x_verdict false (cfg_single ([], Sp)) a.
 Proof.
   exists G83, ns_tl, lib83, (AGrp [ATag s_slash_red_slash]).
   split; [|split; [reflexivity | vm_compute; discriminate]].
@@ -43,7 +43,7 @@ Qed.
 (* 2. "tl:3a" gets a STYLE_WARNING, "3a" does not: capitalisation is checked on the text with its namespace *)
 Lemma prefixed_equiv_refuted_capitalization :
   exists G p Sp a, structural G p Sp a /\ schema83_group G = schema83_single Sp /\
-    x_verdict (cfg_group G) (prefix_ann p a) <> x_verdict (cfg_single ([], Sp)) a.
+    x_verdict false (cfg_group G) (prefix_ann p a) <> x_verdict false (cfg_single ([], Sp)) a.
 Proof.
   exists G83, ns_tl, lib83, (AGrp [ATag s_3a]).
   split; [|split; [reflexivity | vm_compute; discriminate]].
@@ -54,7 +54,7 @@ Qed.
       with the 8.3 character rules: "tl:Label/é" is clean, "Label/é" against the library alone is not *)
 Lemma prefixed_equiv_refuted_mixed_generation :
   exists G p Sp a, structural G p Sp a /\
-    x_verdict (cfg_group G) (prefix_ann p a) = [] /\ x_verdict (cfg_single ([], Sp)) a = [CharacterInvalid].
+    x_verdict true (cfg_group G) (prefix_ann p a) = [] /\ x_verdict true (cfg_single ([], Sp)) a = [CharacterInvalid].
 Proof.
   exists Gmixed, ns_tl, lib82, (AGrp [ATag s_label_e]).
   split; [|split; vm_compute; reflexivity].
@@ -64,7 +64,7 @@ Qed.
 Lemma unprefixed_equiv_refuted_mixed_generation :
   exists G Sp a, NoDup (map fst G) /\ lookup [] G = Some Sp /\
     Forall (fun t => get_schema_namespace t = []) (ann_tags a) /\
-    x_verdict (cfg_group G) a = [] /\ x_verdict (cfg_single ([], Sp)) a = [CharacterInvalid].
+    x_verdict true (cfg_group G) a = [] /\ x_verdict true (cfg_single ([], Sp)) a = [CharacterInvalid].
 Proof.
   exists Gmixed', std82, (AGrp [ATag s_label_e]).
   split; [apply nodup2; discriminate|]. split; [reflexivity|]. split; [repeat constructor|].
@@ -75,8 +75,8 @@ Qed.
       rules, every tag written with it is CHARACTER_INVALID *)
 Lemma prefixed_equiv_refuted_nonascii_prefix :
   exists G p Sp a, structural G p Sp a /\ schema83_group G = schema83_single Sp /\
-    x_set_schema_prefix p = Ok p /\
-    x_verdict (cfg_group G) (prefix_ann p a) = [CharacterInvalid] /\ x_verdict (cfg_single ([], Sp)) a = [].
+    x_set_schema_prefix false p = Ok p /\
+    x_verdict false (cfg_group G) (prefix_ann p a) = [CharacterInvalid] /\ x_verdict false (cfg_single ([], Sp)) a = [].
 Proof.
   exists G82e, ns_e_acute, lib82, (AGrp [ATag s_red]).
   split; [|split; [reflexivity | split; [vm_compute; reflexivity | split; vm_compute; reflexivity]]].
@@ -89,20 +89,69 @@ Definition ex_ann : ann str := AGrp [ATag s_red; AGrp [ATag s_blue; ATag s_red]]
 Lemma no_rules_uniform : RUniform no_rules.
 Proof. intros b p t _ _. reflexivity. Qed.
 
+(* CPython's tables have the three facts the theorems about the repaired code assume *)
+Definition ascii_tables_check : bool :=
+  forallb (fun n => let c := N.of_nat n in
+             implb (is_ascii_letter c) (x_isalpha c)
+             && implb ((32 <=? c) && (c <=? 126)) (x_isprint c)
+             && implb (x_isalpha c) (is_ascii_letter c)) (seq 0 128).
+
+Lemma ascii_tables_check_ok : ascii_tables_check = true.
+Proof. vm_compute. reflexivity. Qed.
+
+Lemma ascii_tables_at c : (c <= 127) ->
+  implb (is_ascii_letter c) (x_isalpha c) && implb ((32 <=? c) && (c <=? 126)) (x_isprint c)
+  && implb (x_isalpha c) (is_ascii_letter c) = true.
+Proof.
+  intro Hc. pose proof ascii_tables_check_ok as H. unfold ascii_tables_check in H.
+  rewrite forallb_forall in H. specialize (H (N.to_nat c)).
+  rewrite N2Nat.id in H. apply H. apply in_seq. lia.
+Qed.
+
+Lemma x_HA : forall c, is_ascii_letter c = true -> x_isalpha c = true.
+Proof.
+  intros c Hl. assert (Hc : c <= 127) by (apply letter_cases in Hl; lia).
+  pose proof (ascii_tables_at c Hc) as H. apply andb_true_iff in H as [H _]. apply andb_true_iff in H as [H _].
+  rewrite Hl in H. exact H.
+Qed.
+
+Lemma x_HP : forall c, 32 <= c <= 126 -> x_isprint c = true.
+Proof.
+  intros c Hr. assert (Hc : c <= 127) by lia.
+  pose proof (ascii_tables_at c Hc) as H. apply andb_true_iff in H as [H _]. apply andb_true_iff in H as [_ H].
+  replace ((32 <=? c) && (c <=? 126)) with true in H; [exact H|].
+  symmetry. apply andb_true_iff. split; apply N.leb_le; lia.
+Qed.
+
+Lemma x_HC : forall c, x_isalpha c = true -> c <= 127 -> is_ascii_letter c = true.
+Proof.
+  intros c Ha Hc. pose proof (ascii_tables_at c Hc) as H. apply andb_true_iff in H as [_ H].
+  rewrite Ha in H. exact H.
+Qed.
+
+Lemma ns_ok_tl : ns_ok ns_tl.
+Proof. exists [116; 108]. split; [reflexivity | split; [discriminate | reflexivity]]. Qed.
+
+Lemma toy_fits : FindFits lib83.
+Proof. intros t e r iss H. cbv in H. injection H as _ <- _. simpl. lia. Qed.
+
+(* non-vacuity: every hypothesis of prefixed_equiv (repaired code) holds for a nested annotation in G83,
+   including the witnesses that refute the unrepaired code *)
+Definition ex_ann2 : ann str := AGrp [ATag s_slash_red_slash; AGrp [ATag s_3a; ATag s_red]].
+
 Lemma prefixed_equiv_nonvacuous :
-  x_verdict (cfg_group G83) (prefix_ann ns_tl ex_ann) = x_verdict (cfg_single ([], lib83)) ex_ann
+  x_verdict true (cfg_group G83) (prefix_ann ns_tl ex_ann) = x_verdict true (cfg_single ([], lib83)) ex_ann
+  /\ x_verdict true (cfg_group G83) (prefix_ann ns_tl ex_ann2) = x_verdict true (cfg_single ([], lib83)) ex_ann2
   /\ ann_tags (prefix_ann ns_tl ex_ann) = [ns_tl ++ s_red; ns_tl ++ s_blue; ns_tl ++ s_red].
 Proof.
-  split; [|reflexivity].
-  apply prefixed_equiv_partial; try exact no_rules_uniform; try reflexivity.
-  - apply nodup2; discriminate.
-  - exact wf_ns_tl.
-  - repeat constructor.
-  - repeat constructor.
-  - repeat constructor.
-  - intros q Sq Hin Hq. simpl in Hin. destruct Hin as [E|[E|[]]]; inversion E; subst.
-    + split; reflexivity.
-    + contradiction.
+  assert (Hs : forall tags, ForeignSilent lower_ascii G83 ns_tl tags).
+  { intros tags q Sq Hin Hq. simpl in Hin. destruct Hin as [E|[E|[]]]; inversion E; subst.
+    - split; reflexivity.
+    - contradiction. }
+  split; [|split; [|reflexivity]];
+    (apply (prefixed_equiv x_isalpha x_isprint lower_ascii upper_ascii lower_ascii no_rules no_rules no_rules x_HA x_HP);
+     try exact no_rules_uniform; try reflexivity;
+     [apply nodup2; discriminate | exact ns_ok_tl | exact toy_fits | repeat constructor | apply Hs]).
 Qed.
 
 (* ------------------------------------------------------------------ bundled data *)
@@ -161,7 +210,8 @@ Definition bundled_load_cases : list (list str) :=
     [k_tl2; k_tl21];                                 (* two versions of one library: clashing names *)
     [k_830; k_score2];                               (* a standard schema cannot be merged into *)
     [k_score2; k_tl3];                               (* different partners *)
-    [k_tl2; ns_tl ++ k_tl2] ].                       (* same library under two prefixes: allowed *)
+    [k_tl2; ns_tl ++ k_tl2];                         (* same library under two prefixes: allowed *)
+    [k_830; ns_e_acute ++ k_tl2] ].                  (* a non-ASCII namespace is refused (since the repair) *)
 
 Definition bundled_load_expected : list (lres (list (str * nat * nat))) :=
   [ LOk [([], 1230%nat, 0%nat); (ns_sc, 1740%nat, 0%nat); (ns_tl, 1151%nat, 0%nat)];
@@ -170,8 +220,14 @@ Definition bundled_load_expected : list (lres (list (str * nat * nat))) :=
     LErr SCHEMA_DUPLICATE_NAMES;
     LErr SCHEMA_DUPLICATE_PREFIX;
     LErr BAD_WITH_STANDARD_MULTIPLE_VALUES;
-    LOk [([], 1157%nat, 0%nat); (ns_tl, 1157%nat, 0%nat)] ].
+    LOk [([], 1157%nat, 0%nat); (ns_tl, 1157%nat, 0%nat)];
+    LErr INVALID_LIBRARY_PREFIX ].
 
 Lemma bundled_loads :
-  map (fun l => summary (x_load_schema_version bundled_repo l)) bundled_load_cases = bundled_load_expected.
+  map (fun l => summary (x_load_schema_version true bundled_repo l)) bundled_load_cases = bundled_load_expected.
 Proof. vm_cast_no_check (eq_refl bundled_load_expected). Qed.
+
+(* C13-F4 repaired: the non-ASCII namespace of the record above is no longer accepted *)
+Lemma nonascii_namespace_refused_now :
+  x_set_schema_prefix false ns_e_acute = Ok ns_e_acute /\ x_set_schema_prefix true ns_e_acute = Exn HedFileError.
+Proof. split; vm_compute; reflexivity. Qed.
